@@ -261,6 +261,22 @@ def run(ctx):
             ctx.ob("C09.issuing", ic.short(), f"sign#{j}:narrowed", ok,
                    f"certificate signed = `{pretty(unparse(arg))[:100] if arg is not None else None}` (chain length narrowed, issuer set)",
                    f"{ic.module.rel}:{c.lineno}")
+    # who may sign: the raw signing primitive is reached only through issue_certificate, whose guards were checked above
+    sgn = P.func(f"{OWN}.sign_certificate")
+    outside = []
+    n_callers = 0
+    for fi_ in P.iter_funcs():
+        for c_ in P.calls_in(fi_):
+            if isinstance(c_.func, ast.Attribute) and c_.func.attr == "sign_certificate" and \
+                    any(t is sgn for t in P.call_targets(fi_, c_, count=False)):
+                n_callers += 1
+                if fi_ is not ic:
+                    outside.append(f"{fi_.short()} (line {c_.lineno})")
+    ctx.ob("C09.issuing", sgn.short(), "called-from-issue-certificate-only", bool(n_callers) and not outside,
+           "sign_certificate is called from issue_certificate only (permission containment and chain-length budget stand in front of every signature)"
+           if n_callers and not outside else
+           f"sign_certificate is also called from {outside[:2]}: a certificate is signed without the issuer's permission-containment / chain-length "
+           "checks - an issuer whose budget is spent still hands out certificates that verify", sgn.loc)
     ce = P.func(f"{OWN}.check_enough_min_chain_length_for_issuer")
     ok, why = budget_rule(ctx, ce)
     ctx.ob("C09.issuing", ce.short(), "budget", ok,
